@@ -201,6 +201,21 @@ def generated_spreadsheet(rng):
         t = T.build_initial(h)
         t.name = f"G{i}"
         doc.body.append(t)
+    # named ranges the way office applications store them: the base cell need not be the first cell of the range, addresses may
+    # be relative / without the $ marks, expressions stand beside them (valid ODF that the library itself would spell otherwise)
+    from odfdo import Element
+
+    forms = ['table:base-cell-address="$G0.$E$7" table:cell-range-address="$G0.$A$1:.$B$2"',
+             'table:base-cell-address="$G0.$C$3" table:cell-range-address="$G0.$B$2:.$B$2"',
+             'table:base-cell-address="G0.A1" table:cell-range-address="G0.A1:G0.B3"',
+             'table:base-cell-address="$G0.$A$1" table:cell-range-address="$G0.$A$1" table:range-usable-as="filter print-range"',
+             'table:base-cell-address="$G0.$B$2" table:cell-range-address="$G0.$A$1:.$C$2"']
+    if rng.random() < 0.7:
+        picked = rng.sample(forms, rng.randint(1, 3))
+        xml = ('<table:named-expressions xmlns:table="urn:oasis:names:tc:opendocument:xmlns:table:1.0">'
+               + "".join(f'<table:named-range table:name="nr{k if k else ""}" {f}/>' for k, f in enumerate(picked))
+               + '<table:named-expression table:name="ex1" table:base-cell-address="$G0.$A$1" table:expression="1+1"/></table:named-expressions>')
+        doc.body.append(Element.from_tag(xml))
     return doc
 
 
